@@ -756,6 +756,45 @@ pub fn run(ctx: &Ctx) -> i32 {
     });
     rep.absorb("tiling_len3", r);
 
+    // A2: comment bodies — a comment is one piece of trivia whatever it contains
+    {
+        const BODY: &[char] = &['/', '*', 'c', ' ', '"', '\'', '#', '\\', '\n'];
+        let nb = BODY.len() as u64;
+        let maxlen = ctx.pick(4u32, 5u32);
+        let total: u64 = (0..=maxlen).map(|l| nb.pow(l)).sum();
+        let r = run_par(ctx, total * 3, 1024, |idx, acc| {
+            let form = idx % 3;
+            let mut k = idx / 3;
+            let mut len = 0u32;
+            while k >= nb.pow(len) {
+                k -= nb.pow(len);
+                len += 1;
+            }
+            let mut d = Vec::new();
+            decode(k, &vec![nb; len as usize], &mut d);
+            let body: String = d.iter().map(|i| BODY[*i as usize]).collect();
+            let sep = match form {
+                // block comment: the body must not close it early
+                0 | 1 => {
+                    if body.contains("*/") {
+                        return;
+                    }
+                    if form == 0 { format!(" /*{}*/ ", body) } else { format!("/*{}*/", body) }
+                }
+                // line comment: one line, not continued by a splice
+                _ => {
+                    if body.contains('\n') || body.ends_with('\\') {
+                        return;
+                    }
+                    format!(" //{}\n", body)
+                }
+            };
+            let text = format!("x{}y", sep);
+            check_text(&text, Some((&["x", "y"], &[sep.as_str(), ""])), acc);
+        });
+        rep.absorb("comment_bodies", r);
+    }
+
     // B: integers
     let ints = int_cases(ctx.quick());
     let r = run_par(ctx, ints.len() as u64, 512, |idx, acc| {
